@@ -21,8 +21,10 @@ for p in props:
         "engine": "xgimon",
         "level_claimed": {
             "category": "exploration",
-            "text": getattr(mod, "LEVEL_TEXT", "Runtime monitoring: the real xgi code is driven with seeded workloads and an oracle observes every execution; "
-                    "the verdict is 'held on the executions observed' (counts and samples in the evidence file), not a proof."),
+            "text": getattr(mod, "LEVEL_TEXT", "Runtime monitoring (exploration): the real xgi code is driven with seeded workloads and an oracle written for this "
+                    "property observes every execution; the verdict is 'held on the executions observed' (counts, distinct cases and samples in the "
+                    "evidence file), not a proof - the right level for a property quantified over inputs / histories of a pure-Python library "
+                    "without threads or native code. Workload and oracle: " + " ".join(str(getattr(mod, "RULE", "")).split())[:700]),
             "design_ref": f"DESIGN.md §2 {pid}",
         },
         "level_note": "Trusted base: CPython, numpy/scipy/networkx/pandas/matplotlib, and the reference models / brute-force oracles under /verif/xgimon. "
